@@ -95,8 +95,41 @@ def opOf (name : String) (a : List String) : Option Op :=
     | _ => some .nop
   | _ => none
 
+/-- The model's `reach` (Model/VmAcct/Heap.lean: `walk` keeps the visited compounds in a list, which
+is what the theorems are about) is quadratic in the number of distinct compounds. For big states
+the driver uses this linear version with a mark array; on every state of moderate size BOTH are
+computed and compared (`reach-impl-mismatch` would be printed instead of the observation). -/
+partial def fastWalk (h : Array Cell) (work : List Item) (marks : Array Bool) (extra : List Nat) (acc : Nat) : Nat :=
+  match work with
+  | [] => acc
+  | x :: w =>
+    match x.cid with
+    | none => fastWalk h w marks extra acc
+    | some id =>
+      if hlt : id < marks.size then
+        if marks[id] then fastWalk h w marks extra acc
+        else
+          let ch := match h[id]? with | some c => c.ch | none => []
+          fastWalk h (ch ++ w) (marks.set id true) extra (acc + ch.length)
+      else if extra.contains id then fastWalk h w marks extra acc
+      else fastWalk h w marks (id :: extra) acc
+
+def fastReach (s : St) : Nat :=
+  let h := s.c.heap.toArray
+  let roots := s.roots
+  roots.length + fastWalk h roots (Array.replicate h.size false) [] 0
+
+def reachObs (s : St) : String :=
+  let n := s.c.heap.length + s.roots.length
+  if n ≤ 40 then toString s.reach
+  else if n ≤ 400 then
+    let a := s.reach
+    let b := fastReach s
+    if a == b then toString a else s!"reach-impl-mismatch({a},{b})"
+  else toString (fastReach s)
+
 def obs (s : St) : String :=
-  s!"{if s.halted then "HALT" else "NONE"} {s.c.refs} {s.reach} {s.depth}"
+  s!"{if s.halted then "HALT" else "NONE"} {s.c.refs} {reachObs s} {s.depth}"
 
 /-- splits `args… [|T k c] [!]` -/
 def splitTail (ts : List String) : List String × Option (Nat × Bool) × Bool :=
